@@ -200,8 +200,9 @@ func c19(args []string) error {
 			if len(idx) >= 3 {
 				h := 2 + rng.Intn(len(idx)-2)
 				inner, err := secs[1].Base.Combine(sigs[:h]...)
+				emit(signers[:h], h, inner, err)
 				if err != nil {
-					return err
+					continue // (reported by the line just written: distinct signers must combine)
 				}
 				rest := append([]hotstuff.QuorumSignature{inner}, sigs[h:]...)
 				sig, err := secs[0].Base.Combine(rest...)
@@ -216,6 +217,12 @@ func c19(args []string) error {
 		for i := 0; i < n; i++ {
 			sig, err := secs[0].Base.Combine(single[i], single[i])
 			emit([]int{i + 1, i + 1}, 2, sig, err)
+		}
+		// the signatures that went into all those combinations are still what they were: one signer each
+		for i := range secs {
+			line := obj{"op": "multi", "scheme": scheme, "signers": []int{i + 1}, "parts": 2, "err": false}
+			c19Obs(line, single[i].Participants(), []int{1, 2, 3, 4, 5, 6, 7})
+			o.emit(line)
 		}
 	}
 	return o.close()
